@@ -345,10 +345,12 @@ class PPO(RLAlgorithm):
         # Clip to action space during inference
         action = action.cpu().data.numpy()
         if not self.training and isinstance(self.action_space, spaces.Box):
+            low, high = self.action_space.low, self.action_space.high
             if self.actor.squash_output:
-                action = self.actor.scale_action(action)
+                # numpy version of StochasticActor.scale_action (action is already an array)
+                action = low + 0.5 * (action + 1.0) * (high - low)
             else:
-                action = np.clip(action, self.action_space.low, self.action_space.high)
+                action = np.clip(action, low, high)
 
         return (
             action,
